@@ -45,6 +45,27 @@ type ctxInfo struct {
 	Off   int
 	Depth int
 	Sys   string // interop name when Op is SYSCALL
+	// Entry is the offset at which the executing context was entered (the
+	// method offset of a called contract), -1 when the monitor did not see the
+	// context being entered (the entry script).
+	Entry int
+	// Via is the instruction that entered the executing context (nil for the
+	// entry script): for a callback made by a native contract it is the native's
+	// context.
+	Via *ctxInfo
+}
+
+// ctxMeta is what the monitor remembers about a context it saw being entered.
+type ctxMeta struct {
+	By      ctxInfo
+	EntryIP int
+}
+
+// flagReadEv is one answer of System.Contract.GetCallFlags, read from the
+// evaluation stack of the context that asked.
+type flagReadEv struct {
+	By    ctxInfo
+	Value callflag.CallFlag
 }
 
 type writeEv struct {
@@ -82,12 +103,15 @@ type monitor struct {
 	notifs []notifEv
 	calls  []callEv
 	instrs int
+	// contexts seen being entered -> who entered them and where they started
+	meta      map[*vm.Context]*ctxMeta
+	flagReads []flagReadEv
 	// flags with which each script hash was seen executing
 	seenFlags map[util.Uint160][]callflag.CallFlag
 }
 
 func attach(ic *interop.Context) *monitor {
-	m := &monitor{ic: ic, snaps: map[*dao.Simple]map[string]string{}, seenKV: map[string]struct{}{}, seenFlags: map[util.Uint160][]callflag.CallFlag{}}
+	m := &monitor{ic: ic, snaps: map[*dao.Simple]map[string]string{}, seenKV: map[string]struct{}{}, seenFlags: map[util.Uint160][]callflag.CallFlag{}, meta: map[*vm.Context]*ctxMeta{}}
 	ic.VM.SetOnExecHook(m.hook)
 	return m
 }
@@ -103,7 +127,7 @@ func fmtKey(k string) string {
 	return fmt.Sprintf("id=%d key=%s", int32(binary.LittleEndian.Uint32([]byte(k[1:5]))), hex.EncodeToString([]byte(k[5:])))
 }
 
-func (m *monitor) diffLayer(d *dao.Simple) {
+func (m *monitor) diffLayer(d *dao.Simple, actor ctxInfo) {
 	if d == nil {
 		return
 	}
@@ -134,7 +158,7 @@ func (m *monitor) diffLayer(d *dao.Simple) {
 		if v != nil {
 			val = append([]byte{}, v...)
 		}
-		m.writes = append(m.writes, writeEv{By: m.prev, Key: k, Val: val, Layer: d})
+		m.writes = append(m.writes, writeEv{By: actor, Key: k, Val: val, Layer: d})
 	}
 	if changed || m.snaps[d] == nil {
 		ns := make(map[string]string, len(cur))
@@ -159,20 +183,57 @@ func (m *monitor) settle() {
 		return
 	}
 	ic := m.ic
-	m.diffLayer(m.prevDAO)
+	stk := ic.VM.Istack()
+	// Who acted during the previous instruction: the context that executed it,
+	// except when that instruction was the RET that unloaded a context entered
+	// by a native contract - then the native's continuation ran (in Go, inside
+	// the RET) and what it wrote / emitted is the native's doing.
+	actor := m.prev
+	if m.prev.Op == opcode.RET && len(m.prevStk) > 0 && len(stk) > 0 {
+		q := 0
+		for q < len(stk) && q < len(m.prevStk) && stk[q] == m.prevStk[q] {
+			q++
+		}
+		if q > 0 && q < len(m.prevStk) {
+			par := stk[q-1]
+			if par.ScriptHash() != m.prev.Hash {
+				actor = ctxInfo{Hash: par.ScriptHash(), Flags: par.GetCallFlags(), Op: opcode.SYSCALL, Sys: interopnames.SystemContractCallNative, Off: par.IP(), Depth: q, Entry: -1}
+				if mt := m.meta[par]; mt != nil {
+					actor.Entry = mt.EntryIP
+					actor.Via = &mt.By
+				}
+			}
+		}
+	}
+	m.diffLayer(m.prevDAO, actor)
 	if ic.DAO != m.prevDAO {
-		m.diffLayer(ic.DAO)
+		m.diffLayer(ic.DAO, actor)
 	}
 	if n := len(ic.Notifications); n > m.prevN {
 		for i := m.prevN; i < n; i++ {
-			m.notifs = append(m.notifs, notifEv{By: m.prev, Idx: i, Name: ic.Notifications[i].Name, Item: ic.Notifications[i].Item})
+			m.notifs = append(m.notifs, notifEv{By: actor, Idx: i, Name: ic.Notifications[i].Name, Item: ic.Notifications[i].Item})
 		}
 	}
 	m.prevN = len(ic.Notifications)
-	stk := ic.VM.Istack()
+	if m.prev.Sys == interopnames.SystemContractGetCallFlags && !ic.VM.HasFailed() && len(stk) > 0 && len(m.prevStk) == len(stk) && stk[len(stk)-1] == m.prevStk[len(stk)-1] {
+		// the answer is on top of the asking context's evaluation stack
+		if es := stk[len(stk)-1].Estack(); es.Len() > 0 {
+			if n, err := es.Peek(0).Item().TryInteger(); err == nil && n.IsInt64() {
+				m.flagReads = append(m.flagReads, flagReadEv{By: m.prev, Value: callflag.CallFlag(n.Int64())})
+			}
+		}
+	}
 	p := 0
 	for p < len(stk) && p < len(m.prevStk) && stk[p] == m.prevStk[p] {
 		p++
+	}
+	if p < len(stk) && p > 0 && (m.prev.Op == opcode.CALL || m.prev.Op == opcode.CALLL || m.prev.Op == opcode.CALLA) {
+		// a function of the same script: same contract call, same flags
+		for i := p; i < len(stk); i++ {
+			if mt := m.meta[stk[i-1]]; mt != nil {
+				m.meta[stk[i]] = mt
+			}
+		}
 	}
 	if p < len(stk) && p > 0 && m.prev.Op != opcode.CALL && m.prev.Op != opcode.CALLL && m.prev.Op != opcode.CALLA {
 		// Contexts stk[p:] were entered during the previous instruction by the
@@ -187,6 +248,11 @@ func (m *monitor) settle() {
 		for i := p; i < len(stk); i++ {
 			c := stk[i]
 			m.calls = append(m.calls, callEv{By: by, CalleeHash: c.ScriptHash(), CalleeFlags: c.GetCallFlags(), Depth: i + 1})
+			if i == p {
+				m.meta[c] = &ctxMeta{By: by, EntryIP: c.NextIP()}
+			} else {
+				m.meta[c] = m.meta[stk[p]] // _initialize of the context just entered
+			}
 			by = ctxInfo{Hash: c.ScriptHash(), Flags: c.GetCallFlags(), Op: opcode.CALL, Depth: i + 1}
 		}
 	}
@@ -196,7 +262,11 @@ func (m *monitor) hook(scriptHash util.Uint160, offset int, op opcode.Opcode) {
 	m.settle()
 	ic := m.ic
 	ctx := ic.VM.Context()
-	m.prev = ctxInfo{Hash: scriptHash, Flags: ctx.GetCallFlags(), Op: op, Off: offset, Depth: len(ic.VM.Istack())}
+	m.prev = ctxInfo{Hash: scriptHash, Flags: ctx.GetCallFlags(), Op: op, Off: offset, Depth: len(ic.VM.Istack()), Entry: -1}
+	if mt := m.meta[ctx]; mt != nil {
+		m.prev.Entry = mt.EntryIP
+		m.prev.Via = &mt.By
+	}
 	if op == opcode.SYSCALL {
 		if prog := ctx.Program(); offset+5 <= len(prog) {
 			id := binary.LittleEndian.Uint32(prog[offset+1:])
@@ -260,6 +330,7 @@ type outcome struct {
 	FinalWrites []writeEv
 	FinalNotifs []notifEv
 	Calls       []callEv
+	FlagReads   []flagReadEv
 	// attempted effects in faulted / rolled back parts
 	TransientWrites int
 	TransientNotifs int
@@ -272,7 +343,7 @@ type outcome struct {
 
 func (m *monitor) outcome() *outcome {
 	ic := m.ic
-	o := &outcome{Halted: !ic.VM.HasFailed(), Calls: m.calls, Instrs: m.instrs}
+	o := &outcome{Halted: !ic.VM.HasFailed(), Calls: m.calls, FlagReads: m.flagReads, Instrs: m.instrs}
 	if !o.Halted {
 		o.TransientWrites = len(m.writes)
 		o.TransientNotifs = len(m.notifs)
@@ -337,6 +408,32 @@ func (o *outcome) verdicts(v *env) []flagViolation {
 				vs = append(vs, flagViolation{"notify-without-AllowNotify:" + v.actor(n.By),
 					fmt.Sprintf("context %s flags=%s (%s at %d) emitted notification %q kept in the HALTed result", name(n.By.Hash), fstr(n.By.Flags), v.actor(n.By), n.By.Off, n.Name)})
 			}
+		}
+		// A method marked safe in the manifest of a deployed contract, whoever
+		// entered it (System.Contract.Call, CALLT or a native contract calling
+		// back), leaves no storage change.
+		for _, w := range o.FinalWrites {
+			if w.By.Via == nil {
+				continue
+			}
+			if mn, safe := v.safeMethodAt(w.By.Hash, w.By.Entry); safe {
+				sig := "safe-method-changed-state:entered-by:" + v.actor(*w.By.Via)
+				if v.isNative(w.By.Via.Hash) {
+					// one root cause whatever the native method: the callback path
+					sig = "safe-method-changed-state:entered-by-a-native-contract's-callback"
+				}
+				vs = append(vs, flagViolation{sig,
+					fmt.Sprintf("method %s of %s is marked safe; entered by %s (%s, flags=%s) it ran with flags=%s, changed storage %s (%s at %d) and the execution HALTed with the change in its change set",
+						mn, name(w.By.Hash), name(w.By.Via.Hash), v.actor(*w.By.Via), fstr(w.By.Via.Flags), fstr(w.By.Flags), fmtKey(w.Key), v.actor(w.By), w.By.Off)})
+			}
+		}
+	}
+	// The flags a context reads by System.Contract.GetCallFlags: a second,
+	// independent view of "flags only shrink along a call chain".
+	for _, r := range o.FlagReads {
+		if r.By.Via != nil && r.Value&^r.By.Via.Flags != 0 {
+			vs = append(vs, flagViolation{"callee-flags-exceed-caller:read-by-GetCallFlags:entered-by:" + v.actor(*r.By.Via),
+				fmt.Sprintf("context %s read flags=%s by System.Contract.GetCallFlags; it was entered by %s (%s) whose flags are %s", name(r.By.Hash), fstr(r.Value), name(r.By.Via.Hash), v.actor(*r.By.Via), fstr(r.By.Via.Flags))})
 		}
 	}
 	// Entering a context and the flags it gets are events of their own: they
@@ -413,4 +510,24 @@ func (v *env) actor(c ctxInfo) string {
 		return "syscall:" + c.Sys
 	}
 	return "op:" + c.Op.String()
+}
+
+// safeMethodAt tells whether offset entry is the start of a method marked safe
+// in the manifest of a contract the harness deployed.
+func (v *env) safeMethodAt(h util.Uint160, entry int) (string, bool) {
+	if entry < 0 {
+		return "", false
+	}
+	v.mfsMu.RLock()
+	mf := v.mfs[h]
+	v.mfsMu.RUnlock()
+	if mf == nil {
+		return "", false
+	}
+	for i := range mf.ABI.Methods {
+		if md := &mf.ABI.Methods[i]; md.Offset == entry {
+			return md.Name, md.Safe
+		}
+	}
+	return "", false
 }
